@@ -269,6 +269,11 @@ def call(ip, name, args, kw):
         return sa in (sp.oo, -sp.oo)
     if name == "sign" and not isinstance(args[0], np.ndarray):
         return sp.sign(S(args[0]))
+    if name == "full":
+        shp = _shape(args[0])
+        out = np.empty(shp, dtype=object)
+        out.fill(S(args[1]))
+        return out
     if name == "searchsorted":
         a = to_obj_array(args[0]).ravel()
         v = args[1]
@@ -386,6 +391,22 @@ def method(ip, base, attr, args, kw):
             return base.index(args[0])
         if attr == "reverse":
             base.reverse()
+            return None
+        if attr == "sort":
+            import functools
+            keyf = kw.get("key")
+            keys = [ip.apply(keyf, [x], {}) if keyf is not None else x for x in base]
+
+            def cmp(a, b):
+                lt = ip.truth(sp.Lt(S(a[0]), S(b[0])))
+                gt = ip.truth(sp.Gt(S(a[0]), S(b[0])))
+                if lt is None or gt is None:
+                    raise OutsideFragment("list.sort on data-dependent keys")
+                return -1 if lt else (1 if gt else 0)
+            order = sorted(zip(keys, range(len(base))), key=functools.cmp_to_key(cmp))
+            if kw.get("reverse"):
+                order.reverse()
+            base[:] = [base[i] for _, i in order]
             return None
         raise OutsideFragment(f"list.{attr}")
     if isinstance(base, dict):
